@@ -64,7 +64,7 @@ SubSpaces == {<<<<"x", 2>>, <<"t", 1>>>>, <<<<"t", 1>>, <<"x", 2>>>>, <<<<"k", 1
 Comp(sa) == LET rest == {nm \in {"x", "t", "k", "z"} : ~SHas(sa, nm)} IN
             IF "z" \in rest /\ "k" \in rest THEN <<<<"z", 2>>, <<"k", 1>>>> ELSE <<<<"z", 1>>>>
 Init == /\ hist = <<>>
-        /\ \E sa \in SubSpaces, sb \in SubSpaces, n \in 2..4 :      \* all initial heaps; -simulate picks one per trace
+        /\ \E sa \in SubSpaces, sb \in SubSpaces, n \in 1..4 :      \* all initial heaps; -simulate picks one per trace
               heap = <<TabOf(sa, n, 0), TabOf(sb, n, 1000), TabOf(sa, n, 2000), TabOf(Comp(sa), n, 3000)>>
 One(t) == Len(t.sh) = 1
 AbsI(x) == IF x < 0 THEN -x ELSE x
@@ -76,7 +76,7 @@ Small(t, u, op) == IF op = "mul" THEN MaxAbs(t) < 30000 /\ MaxAbs(u) < 30000 ELS
 Emitop(o, res) == hist' = Append(hist, o) /\ heap' = (IF Len(heap) < 9 THEN Append(heap, res) ELSE heap)
 Op0 == [a |-> "", t |-> 0, u |-> 0, sels |-> <<>>, cs |-> NoCol, n |-> 0, op |-> "", names |-> <<>>]
 Next == /\ Len(hist) < Depth
-        /\ \E i \in {R(DOMAIN heap)}, j \in {R(DOMAIN heap)}, w \in {R(1..11)} :
+        /\ \E i \in {R(DOMAIN heap)}, j \in {R(DOMAIN heap)}, w \in {R(1..12)} :
            LET t == heap[i]  u == heap[j] IN
            CASE w \in {1, 2, 3} /\ One(t) ->
                   \E rs \in {R(RowSels(t.sh[1]) \cup {EllSel})}, cs \in {R(ColSels(t.sp))} :
@@ -108,6 +108,7 @@ Next == /\ Len(hist) < Depth
                      /\ hist' = hist \o <<[Op0 EXCEPT !.a = "get", !.t = i, !.sels = <<>>, !.cs = ListSel(pm)],
                                            [Op0 EXCEPT !.a = "eq", !.t = i, !.u = Len(heap) + 1]>>
                      /\ heap' = Append(heap, Get(t, <<>>, ListSel(pm)))
+             [] w = 11 -> \E dt \in {R({32, 64})} : hist' = Append(hist, [Op0 EXCEPT !.a = "to", !.t = i, !.n = dt]) /\ UNCHANGED heap
              [] OTHER -> \E eq \in {R(BOOLEAN)} : hist' = Append(hist, [Op0 EXCEPT !.a = IF eq THEN "eq" ELSE "space", !.t = i, !.u = j]) /\ UNCHANGED heap
 Spec == Init /\ [][Next]_vars
 InitTabs == SubSeq(heap, 1, 3)
